@@ -900,8 +900,10 @@ def golden_cases():
 def run(c: Check):
     c.rule = ("filters: random chains (1-5 tests of the four kinds over tags, @state, @name; regular expressions over "
               "literal/./concatenation/alternation/star with optional ^ and $) printed with random whitespace and quote "
-              "styles, evaluated on a random job directory near the constants; workspaces: 0-6 job directories with every "
-              "marker combination, 0-3 experiments with index and optional backup index; non-trivial = filter with >=2 "
+              "styles, evaluated on a random job directory near the constants; texts derived from such chains that leave the "
+              "grammar (30 kinds: other case, other operators, brackets, odd white characters, malformed), each with its "
+              "reading or none; workspaces: 0-6 job directories with every marker combination, 0-3 experiments with index "
+              "and optional backup index, for orphans also 1-3 entries that are links to job directories; non-trivial = filter with >=2 "
               "tests or a non-equality test / workspace with >=2 jobs and an experiment, filter or index; distinct by "
               "canonical case")
     if "props/C19.v" in (COQ / "_CoqProject").read_text():
@@ -1032,12 +1034,12 @@ def run(c: Check):
     c.extra["disagreeing_cases"] = [dict({k: v for k, v in views[i][0].items() if k != "atom_texts"}, view=views[i][1])
                                     for i in bad[:5]]
     c.level_assumptions = [
-        "pyparsing, click and Python's re are trusted; the filter grammar is modelled by its meaning (the character-level "
-        "parser is exercised by the correspondence run, not modelled); regular expressions are covered for the subset "
-        "literal / . / concatenation / alternation / star / ^ / $ on values without newline",
+        "pyparsing, click and Python's re are trusted; the character-level grammar is modelled (model/FilterParse.v) for "
+        "quoted strings without backslash; regular expressions are covered for the subset literal / . / concatenation / "
+        "alternation / star / ^ / $ on values without newline, their sources are not parsed by the model",
         "tag values are strings; psutil reports process liveness truthfully; a pid file holds a local process definition",
-        "job directories are real directories (no links left by `deprecated list --fix`), index entries are links to "
-        "jobs/<task>/<hash> as the scheduler creates them",
+        "entries of jobs/<task>/ are real directories, and for `orphans` also links to job directories as `deprecated list "
+        "--fix` leaves them (not for `jobs clean`); index entries are links to jobs/<task>/<hash> as the scheduler creates them",
     ]
 
 
